@@ -51,7 +51,8 @@ class C12(Check):
             'error_read; unknown parameter, module shorthand, malformed, future timestamp} + callback '
             '(un)registrations at node/module/parameter level incl. raising and one-shot callbacks; or (e2e / proxy '
             'mode) generated node with recording drivers + setParameter/getParameter/execCommand with valid values of '
-            'every datatype, optionally through a proxy node with a connection drop; distinct = different (case '
+            'every datatype, optionally through a proxy node with a connection drop, 60 % with 2..11 background driver '
+            'updates on parameters the operations do not use; distinct = different (case '
             'digest, schedule digest); non-trivial = >= 3 cache-relevant messages or >= 2 end-to-end operations')
     REAL = ['frappy.client.SecopClient (rx loop, updateValue, callbacks, setParameter/getParameter/execCommand)',
             'frappy.datatypes on both sides (get_datatype on the client, constructors on the node)',
